@@ -84,6 +84,7 @@ func csvQuoterEmitShape(c *Ctx, f *ssa.Function, in *ssa.Parameter, rv ssa.Value
 			return ""
 		}
 		states := map[ssa.Value]bool{}
+		initIA := map[*ssa.IndexAddr]bool{}
 		work := []ssa.Value{x.X}
 		for len(work) > 0 {
 			v := work[0]
@@ -102,8 +103,44 @@ func csvQuoterEmitShape(c *Ctx, f *ssa.Function, in *ssa.Parameter, rv ssa.Value
 				events[s] = quoterAppendedElems(s.Call.Args[1])
 				work = append(work, s.Call.Args[0])
 			case *ssa.MakeSlice:
-				if k, ok := constInt(s.Len); !ok || k != 0 {
+				k, ok := constInt(s.Len)
+				if !ok || k < 0 || k > 8 {
 					return ""
+				}
+				if k > 0 {
+					// make([]byte, k, ...) whose k elements are each set once, in order, straight after the make:
+					// a start that already holds those k bytes
+					next := int64(0)
+					for _, ins := range s.Block().Instrs {
+						ia, isIA := ins.(*ssa.IndexAddr)
+						if !isIA || ia.X != ssa.Value(s) {
+							continue
+						}
+						ik, isK := constInt(ia.Index)
+						refs := referrersOf(ia)
+						var st *ssa.Store
+						for _, rr := range refs {
+							switch y := rr.(type) {
+							case *ssa.DebugRef:
+							case *ssa.Store:
+								if st != nil || y.Addr != ssa.Value(ia) {
+									return ""
+								}
+								st = y
+							default:
+								return ""
+							}
+						}
+						if !isK || ik != next || st == nil || st.Block() != s.Block() {
+							return ""
+						}
+						next++
+						events[st] = []ssa.Value{st.Val}
+						initIA[ia] = true
+					}
+					if next != k {
+						return ""
+					}
 				}
 			case *ssa.Const:
 				if !s.IsNil() {
@@ -153,6 +190,10 @@ func csvQuoterEmitShape(c *Ctx, f *ssa.Function, in *ssa.Parameter, rv ssa.Value
 						return ""
 					}
 					consumers = append(consumers, u)
+				case *ssa.IndexAddr:
+					if !initIA[u] {
+						return ""
+					}
 				default:
 					return ""
 				}
